@@ -140,7 +140,7 @@ Clone(i, j) ==
     /\ UNCHANGED blobs
 
 Save(i, s) ==
-    /\ Present(i) /\ ~inst[i].taint
+    /\ Present(i)
     /\ blobs' = [blobs EXCEPT ![s] = inst[i]]
     /\ Log([op |-> "save", i |-> i, s |-> s], [t |-> inst[i].t, bound |-> SizeBound(inst[i].kind, inst[i].p)])
     /\ UNCHANGED inst
@@ -205,7 +205,11 @@ TaintBound == \A i \in Ids : Present(i) => inst[i].age <= inst[i].p.n + 2
 \* bound on the freely explored part only (continuations always run to their end); models define FreeBound
 FreeDepthOf(b) == rest # <<>> \/ pos <= b
 \* the step counter and the histories are not part of the abstract state
-view == <<pos * (IF UseScript THEN 1 ELSE 0), rest, [i \in Ids |-> IF Present(i) THEN [inst[i] EXCEPT !.t = 0] ELSE inst[i]],
+\* While a continuation runs, the behaviour so far is part of the view: a continuation that starts with reset() (or
+\* restores a blob) would otherwise merge with the continuation from the initial state -- the transcribed reset
+\* re-creates the initial state exactly (ResetToInit) -- and the real instance would never be replayed through
+\* "arbitrary history, reset, continuation".
+view == <<pos * (IF UseScript THEN 1 ELSE 0), rest, IF rest = <<>> \/ UseScript THEN <<>> ELSE ops, [i \in Ids |-> IF Present(i) THEN [inst[i] EXCEPT !.t = 0] ELSE inst[i]],
           [s \in Slots |-> IF blobs[s].kind # "none" THEN [blobs[s] EXCEPT !.t = 0] ELSE blobs[s]]>>
 
 \* one replayable behaviour per explored transition
